@@ -87,10 +87,29 @@ def gen_plan(seed, tier):
   for i in range(1, nsw + 1):
     spare[i] = nextport[i]
     nextport[i] += 1
+  # port numbering per switch: 1..N, 0..N-1 (0 is a legal port number) or
+  # sparse and unordered
+  r3 = Rng(mix(seed, "portnum"))
+  num = {}
+  for i in range(1, nsw + 1):
+    n = nextport[i] - 1
+    k = r3.pick(["one", "one", "zero", "sparse"])
+    if k == "one":
+      num[i] = list(range(1, n + 1))
+    elif k == "zero":
+      num[i] = list(range(0, n))
+    else:
+      num[i] = ([7, 0, 300, 2, 0xfeff, 12] + list(range(40, 60)))[:n]
+      if r3.chance(0.5):
+        num[i].remove(0) if 0 in num[i] else None
+        num[i] = (num[i] + [61])[:n]
+  uplinks = [[a, num[a][pa - 1], b, num[b][pb - 1]] for a, pa, b, pb in uplinks]
+  hosts = [[sw, num[sw][p - 1]] for sw, p in hosts]
   cfg["uplinks"] = uplinks
   cfg["hosts"] = hosts
   cfg["nports"] = {str(i): nextport[i] - 1 for i in nextport}
-  cfg["spare"] = {str(i): spare[i] for i in spare}
+  cfg["ports"] = {str(i): num[i] for i in num}
+  cfg["spare"] = {str(i): num[i][spare[i] - 1] for i in spare}
   steps = []
   n = r.randint(5, 80 if tier == "thorough" else 40)
   for _ in range(n):
@@ -193,7 +212,11 @@ def _drive(sim, plan, known, hit):
     sim.probes["transparent_mode"] += 1
   nsw = cfg["nsw"]
   for i in range(1, nsw + 1):
-    net.add_switch(i, cfg["nports"][str(i)], max_buffers=cfg["max_buffers"])
+    plist = (cfg.get("ports") or {}).get(str(i))
+    if plist is not None and 0 in plist:
+      sim.probes["port_number_zero"] += 1
+    net.add_switch(i, plist if plist is not None else cfg["nports"][str(i)],
+                   max_buffers=cfg["max_buffers"])
   for a, pa, b, pb in cfg["uplinks"]:
     net.link(a, pa, b, pb)
   if nsw > 1:
@@ -225,7 +248,8 @@ def _drive(sim, plan, known, hit):
   stale = []        # (sw, tag, dst, port used, most recent port, why)
   last_quiet = [0]
   checked = [0]
-  all_ports = {i: set(range(1, cfg["nports"][str(i)] + 1))
+  all_ports = {i: set((cfg.get("ports") or {}).get(str(i))
+                      or range(1, cfg["nports"][str(i)] + 1))
                for i in range(1, nsw + 1)}
 
   def sightings():
